@@ -501,6 +501,74 @@ def rule_gr7(prog, G):
     return r
 
 
+def rule_gr8(prog, G, prop=PROP):
+    """the two ways to write an atomic proposition: an identifier is taken
+    as it is, a double-quoted string is taken *without its quotes* (that is
+    how names that look like operators or contain blanks are written): the
+    callbacks of the two alternatives must build AtomicProposition(text) and
+    AtomicProposition(text[1:-1])"""
+    r = RuleResult('R-GR-8', 'identifier atoms are named by the token text, '
+                   'quoted atoms by the text between the quotes')
+    n = 0
+    for lang, g in sorted(G.items()):
+        for ru in g.rules:
+            toks = [(sym, t, f) for (sym, t, f) in ru.rhs if t and not f]
+            if len(ru.rhs) != 1 or len(toks) != 1:
+                continue
+            tname = toks[0][0]
+            kind, pat = g.terminals.get(tname, (None, None))
+            if kind != 're':
+                continue
+            quoted = tname.startswith('ESCAPED') or pat.startswith('"')
+            ident = identifier_shape(pat) is not None
+            if not (quoted or ident):
+                continue
+            name = ru.alias or ru.origin
+            cb = g.callbacks.get(name, ('missing',))
+            want = 'tokenslice(K(1), K(-1), K(None))' if quoted else 'token'
+            n += 1
+            r.inst(lang=lang, production='%s -> %s' % (ru.origin, tname),
+                   callback=name, builds=cb[2] if cb[0] == 'atom' else cb[0],
+                   expected=want)
+            where = cb[-1].where() if cb[0] != 'missing' and \
+                hasattr(cb[-1], 'where') else \
+                g.parser_cls.module.relpath + ':1'
+            if cb[0] == 'atom' and cb[2] == want:
+                r.ok()
+            elif cb[0] == 'atom':
+                r.fail(Finding(
+                    prop, 'R-GR-8', where, g.transformer.short(),
+                    'atom-text:%s:%s:%s' % (lang, name, cb[2]),
+                    'the %s parser names %s atom by `%s` of the token, '
+                    'expected `%s`: %s' % (
+                        lang, 'a quoted' if quoted else 'an identifier',
+                        cb[2].replace('token', 'text'),
+                        want.replace('token', 'text'),
+                        'the quotes become part of the name, so "x y" names '
+                        'no label of any structure' if quoted and
+                        cb[2] == 'token' else 'the name is not the text '
+                        'that was written')))
+            elif cb[0] == 'missing':
+                r.fail(Finding(
+                    prop, 'R-GR-8', where, g.transformer.short(),
+                    'atom-missing:%s:%s' % (lang, name),
+                    'the %s grammar has the alternative `%s -> %s` but the '
+                    'transformer %s has no callback `%s`: a raw parse tree '
+                    'is put where the atomic proposition belongs' % (
+                        lang, ru.origin, tname, g.transformer.short(), name)))
+            elif cb[0] == 'pass':
+                r.fail(Finding(
+                    prop, 'R-GR-8', where, g.transformer.short(),
+                    'atom-token:%s:%s' % (lang, name),
+                    'callback `%s` of the %s parser returns the raw token '
+                    'instead of an AtomicProposition' % (name, lang)))
+            else:
+                raise Inconclusive('R-GR-8', 'callback %s of %s: %s' % (
+                    name, lang, cb[0]), where)
+    floor('R-GR-8', 'atom alternatives', n, 8)
+    return r
+
+
 def run(prog, tier, seed):
     G = c09.grammars(prog)
     T = Attempts()
@@ -508,7 +576,7 @@ def run(prog, tier, seed):
     r2 = T(c09.rule_rt2, prog, G, PROP, 'R-GR-2')
     results = T.results(r1, r2, T(rule_gr3, prog, G), T(rule_gr4, prog, G),
                         T(rule_gr5, prog), T(rule_gr6, prog),
-                        T(rule_gr7, prog, G))
+                        T(rule_gr7, prog, G), T(rule_gr8, prog, G))
     # lark's LALR builder resolves a conflict silently (shift wins): only a
     # conflict-free grammar is parsed as written, so that the parser accepts
     # exactly the strings the documented productions derive
